@@ -39,6 +39,7 @@ package iobroker
 //@   rely mu outNotMe: imp(old(b.ownOut) != me, b.ownOut != me)
 
 //@ func Broker.connect(b, ctx, sl, addr, cancelUs, cancelOther, dir, key, proxy)
+//@   locals b ctx sl addr cancelUs cancelOther dir key proxy dirT cctx cancel ct msg err f
 //@   props C01 C04 C06 C11
 //@   ghost me int
 //@   ghost phase int = 0
@@ -86,6 +87,7 @@ package iobroker
 //@   ensures{C11} reason_wrongkey: imp(!noMore0 && key != "" && !(key0 == "" && (us0 || other0)) && !us0 && key0 != "" && key != key0, reason == LMIncorrectKey)
 
 //@ func Broker.ConnectIn(b, ctx, sl, addr, w, key)
+//@   locals b ctx sl addr w key ctx sl
 //@   props C01 C02
 //@   ghost n int = 0
 //@   flows w: Broker.proxyIn
@@ -99,6 +101,7 @@ package iobroker
 //@   ensures once: n == 1
 
 //@ func Broker.ConnectOut(b, ctx, sl, addr, r, key)
+//@   locals b ctx sl addr r key ctx sl
 //@   props C01 C03
 //@   ghost n int = 0
 //@   flows r: Broker.proxyOut
@@ -112,6 +115,7 @@ package iobroker
 //@   ensures once: n == 1
 
 //@ func Broker.Do#2() (err)
+//@   locals b ctx eg ectx
 //@   props C04 C01
 //@   ghost me int
 //@   ghost set bool = false
@@ -123,6 +127,7 @@ package iobroker
 
 // proxyIn: one line at a time: receive, write line+"\n" to w, flush, log.
 //@ func Broker.proxyIn(b, ctx, sl, w) (err)
+//@   locals b ctx sl w flush f ok FlushError f ok l ok err err err
 //@   props C02 C11 C04
 //@   ghost phase int = 0
 //@   ghost cur string = ""
@@ -139,6 +144,7 @@ package iobroker
 
 // proxyOut: forwarding loop.
 //@ func Broker.proxyOut(b, ctx, sl, r) (err)
+//@   locals b ctx sl r outRet o err och buf n err err o ok
 //@   props C03 C11 C04
 //@   ghost have bool = false
 //@   ghost cur string = ""
@@ -174,6 +180,7 @@ package iobroker
 // ConnectInOut: both sides get one key which no other call uses (the counter
 // value obtained in this call identifies the request).
 //@ func Broker.ConnectInOut(b, ctx, sl, addr, w, r)
+//@   locals b ctx sl addr w r key wg
 //@   props C06 C04
 //@   ghost rid int = 0
 //@   ghost nTok int = 0
@@ -195,18 +202,21 @@ package iobroker
 
 // ---- operator notices from the broker (C10)
 //@ func Broker.sendLine(b, color, addr, format, a)
+//@   locals b color addr format a
 //@   props C10 C01 C04
 //@   ghost n int = 0
 //@   on send b.och(cl): assert(cl.Line == "[" + addr + "] " + sprintf(format, a) && cl.Color == color && !cl.Plain, "notice_is_addr_plus_message_verbatim"); n++
 //@   ensures one_line: n == 1
 
 //@ func Broker.Logf(b, addr, format, a)
+//@   locals b addr format a
 //@   props C10 C01 C04
 //@   ghost n int = 0
 //@   on enter Broker.sendLine(bb, c, ad, f, aa): assert(bb == b && ad == addr && f == format && aa == a, "forwarded_unchanged"); n++
 //@   ensures one_line: n == 1
 
 //@ func Broker.Errorf(b, addr, format, a)
+//@   locals b addr format a
 //@   props C10 C01 C04
 //@   ghost n int = 0
 //@   on enter Broker.sendLine(bb, c, ad, f, aa): assert(bb == b && ad == addr && f == format && aa == a, "forwarded_unchanged"); n++
@@ -215,6 +225,7 @@ package iobroker
 // isBidir: a key belongs to a /io request exactly when it starts with the
 // broker's bidirectional sentinel.
 //@ func Broker.isBidir(b, key) (r)
+//@   locals b key
 //@   props C06
 //@   assigns none
 //@   ensures meaning: r == strings.HasPrefix(key, b.bidirKey)
@@ -223,6 +234,7 @@ package iobroker
 // unchanged and under the listener lock, to the registered listeners; nothing
 // else is ever sent to a listener.
 //@ func Broker.processEvents(b, ctx)
+//@   locals b ctx ev l
 //@   props C04 C12
 //@   ghost cur Event
 //@   ghost have bool = false
@@ -233,16 +245,19 @@ package iobroker
 
 // Listener registration only touches the listener set, under its lock.
 //@ func Broker.AddEventListener(b, ch)
+//@   locals b ch
 //@   props C04 C12
 //@   ensures unlocked_again: !held("Broker.evMu")
 
 //@ func Broker.RemoveEventListener(b, ch)
+//@   locals b ch
 //@   props C04 C12
 //@   ensures unlocked_again: !held("Broker.evMu")
 
 // New establishes the representation invariant: no stream attached, no key,
 // listener set and event channel ready, channels as given.
 //@ func New(ich, och) (b, err)
+//@   locals ich och bidirKeyBuf err
 //@   props C01 C04 C06
 //@   nilable ich, och
 //@   ensures one_result: (b == nil) == (err != nil)
